@@ -7,7 +7,9 @@ cp /tmp/wt_$id/tests/demo_$id.rs $d/ 2>/dev/null
 python3 - "$id" "$name" "$needs" "$caught" <<'PY'
 import json,sys
 id,name,needs,caught=sys.argv[1:5]
-json.dump({"breaks_property":id,"needs_to_manifest":needs,"source":"independent sub-agent given only the property text and a scratch worktree",
+import re
+prop=re.sub(r"[a-z]$","",id)
+json.dump({"breaks_property":prop,"needs_to_manifest":needs,"source":"independent sub-agent given only the property text and a scratch worktree",
  "confirmed":"selftest/confirm_seed.sh %s: with the change the 255 lib tests and 57 doc tests pass and the demonstration fails; without it the demonstration passes"%id,
  "checks_run":"selftest/try_patch.sh seeded/%s/patch.diff (applies to /repo, runs the quick tier, reverts)"%name,
  "result":caught}, open('/verif/seeded/%s/meta.json'%name,'w'), indent=1)
